@@ -316,6 +316,8 @@ type scenario struct {
 	viaNew     bool                     // the Writer is built by the deprecated constructor NewWriter(WriterConfig)
 	defBal     bool                     // Writer.Balancer left unset: the default round-robin (one goroutine: message j of the run goes to partition j mod n)
 	writeTO    time.Duration            // > 0: Writer.WriteTimeout
+	twoClus    bool                     // wire: a second cluster and a second Writer share the Transport (pool per address)
+	codec      int                      // > 0: Writer.Compression is this codec (1 gzip, 2 snappy, 3 lz4, 4 zstd) instead of the derived one
 	prodMax    int16                    // wire: brokers advertise Produce only up to this version (0 = whatever the cluster model advertises)
 	stallAt    int                      // wire: the broker stops reading in the middle of the n-th produce request to arrive (special "stallwrite")
 	linger     time.Duration            // > 0: timed run — the trace carries clock ticks and the model's linger bound (BatchTimeout + slack) applies
@@ -857,6 +859,49 @@ func (b *builder) sharedFail(i int) *scenario {
 	return sc
 }
 
+// manyTopics: a Writer without a topic of its own, one goroutine, calls of 13 to 40 messages spread over two or three
+// topics: within every topic-partition the messages of a call must be produced in the order of the call's slice, also
+// when the call is long.
+func (b *builder) manyTopics(i int) *scenario {
+	r := b.r
+	sc := &scenario{name: "manytopics" + strconv.Itoa(i), bs: []int{3, 100, 7, 16}[i%4], bb: 1 << 20, ma: 2, async: i%3 == 2, compl: i%2 == 0, wtopic: "",
+		timeout: 2 * time.Millisecond, nparts: map[string]int{"a": 1, "b": 1 + i%2, "c": 1}, faults: map[tpKey][]fault{}, closeAt: -1}
+	topics := []string{"a", "b", "c"}[:2+i%2]
+	var calls []callSpec
+	for c := 0; c < 2; c++ {
+		b.nextC++
+		cs := callSpec{id: b.nextC}
+		for k := 0; k < 13+r.Intn(28); k++ {
+			t := topics[r.Intn(len(topics))]
+			cs.msgs = append(cs.msgs, b.mkMsg(40+r.Intn(10), t, r.Intn(sc.nparts[t]), false))
+		}
+		calls = append(calls, cs)
+	}
+	sc.callers = [][]callSpec{calls}
+	return sc
+}
+
+// oldBrokerBig: over the real Transport against brokers that speak Produce only up to v2 (message sets, format 1), with
+// Compression set and batches of 70-200 KiB: the compressed wrapper message must carry the WHOLE inner message set —
+// every message of an acknowledged batch is in the log.
+func (b *builder) oldBrokerBig(i int) *scenario {
+	r := b.r
+	sc := &scenario{name: "oldbig" + strconv.Itoa(i), bs: 200, bb: 1 << 20, ma: 2, async: false, compl: i%2 == 0, wtopic: "t",
+		timeout: 3 * time.Millisecond, nparts: map[string]int{"t": 1}, faults: map[tpKey][]fault{}, closeAt: -1,
+		wire: 1 + i%2, prodMax: []int16{2, 1, 2, 0}[i%4], codec: 1 + i%4}
+	var calls []callSpec
+	for c := 0; c < 2; c++ {
+		b.nextC++
+		cs := callSpec{id: b.nextC}
+		for k := 0; k < 60+r.Intn(60); k++ {
+			cs.msgs = append(cs.msgs, b.mkMsg(900+r.Intn(900), "", 0, false))
+		}
+		calls = append(calls, cs)
+	}
+	sc.callers = [][]callSpec{calls}
+	return sc
+}
+
 // tinyTimeout: BatchTimeout of microseconds with BatchSize 2 and odd message counts, while every batch creation is
 // stalled inside the partition mutex: the linger timer of a batch expires while writeMessages fills and queues it and
 // opens the next batch, so the timer branch of awaitBatch runs for a batch that is no longer attached
@@ -1031,6 +1076,7 @@ func (b *builder) wireScenario(i int) *scenario {
 	if i%5 == 4 {
 		sc.closeAt = time.Duration(500+r.Intn(4000)) * time.Microsecond // Close while requests are on the wire
 	}
+	sc.twoClus = i%3 == 0
 	sc.prodMax = []int16{0, 3, 4, 7, 5, 3}[i%6] // old brokers: the Produce version the Transport negotiates down to
 	// leader moves after a few produce requests, on random partitions
 	nm := 1 + r.Intn(3)
@@ -1116,12 +1162,48 @@ func run(sc *scenario, out *bufio.Writer) {
 		w.RequiredAcks = kafka.RequireAll
 	}
 	w.Compression = kafka.Compression(opt % 5)
+	if sc.codec > 0 {
+		w.Compression = kafka.Compression(sc.codec)
+	}
 	f.wantAcks, f.wantAttrs = int16(w.RequiredAcks), int16(w.Compression)
 	var wc *wireCluster
+	var f2 *fakeRT
 	if sc.wire > 0 {
-		wc = newWireCluster(f, sc.wire, sc.nparts, append([]leaderMove(nil), sc.moves...))
+		wc = newWireCluster(f, sc.wire, sc.nparts, append([]leaderMove(nil), sc.moves...), 'b')
 		tr := &kafka.Transport{Dial: wc.Dial, MetadataTTL: 2 * time.Millisecond, IdleTimeout: time.Second, DialTimeout: time.Second}
 		w.Transport, w.Addr = tr, wc.bootAddr()
+		if sc.twoClus {
+			// one Transport, two clusters with the same topics: another Writer (Addr = the other cluster) has used the
+			// Transport first.  Each Writer must talk to the cluster its Addr names: the probe lands in the other
+			// cluster only, nothing of this scenario's traffic does.
+			f2 = newFake()
+			for t, n := range sc.nparts {
+				f2.nparts[t] = n
+			}
+			f2.wantAcks, f2.wantAttrs = int16(kafka.RequireOne), 0
+			wc2 := newWireCluster(f2, 1, sc.nparts, nil, 'c')
+			tr.Dial = func(ctx context.Context, network, addr string) (net.Conn, error) {
+				if strings.HasPrefix(addr, "c") {
+					return wc2.Dial(ctx, network, addr)
+				}
+				return wc.Dial(ctx, network, addr)
+			}
+			var t0 string
+			for t := range sc.nparts {
+				if t0 == "" || t < t0 {
+					t0 = t
+				}
+			}
+			w2 := &kafka.Writer{Addr: wc2.bootAddr(), Topic: t0, Transport: tr, BatchSize: 1, MaxAttempts: 2, RequiredAcks: kafka.RequireOne,
+				BatchTimeout: time.Millisecond}
+			pctx, pcancel := context.WithTimeout(context.Background(), 3*time.Second)
+			if err := w2.WriteMessages(pctx, kafka.Message{Key: []byte("probe"), Value: []byte("x")}); err != nil {
+				fmt.Fprintf(os.Stderr, "writer driver: probe write to the second cluster failed: %v\n", err)
+			}
+			pcancel()
+			w2.Close()
+			defer wc2.close()
+		}
 		w.WriteBackoffMin, w.WriteBackoffMax = 2*time.Millisecond, 6*time.Millisecond
 		wc.stallAt = sc.stallAt
 		wc.prodMax = sc.prodMax
@@ -1617,6 +1699,27 @@ func run(sc *scenario, out *bufio.Writer) {
 		st := w.Stats()
 		stats = fmt.Sprintf("w=%d,m=%d,b=%d,e=%d,r=%d,maxn=%d,maxb=%d", st.Writes, st.Messages, st.Bytes, st.Errors, st.Retries, st.BatchSize.Max, st.BatchBytes.Max)
 	}
+	if f2 != nil {
+		// the other cluster holds the probe and nothing else; this scenario's cluster does not hold the probe
+		f2.mu.Lock()
+		n2 := 0
+		for _, l := range f2.logs {
+			n2 += len(l)
+		}
+		f2.mu.Unlock()
+		f.mu.Lock()
+		if n2 != 1 {
+			f.multi++
+		}
+		for _, l := range f.logs {
+			for _, k := range l {
+				if k == "probe" {
+					f.multi++
+				}
+			}
+		}
+		f.mu.Unlock()
+	}
 	render(evs, unsent, stuck, stats)
 }
 
@@ -1828,6 +1931,12 @@ func main() {
 	}
 	for i := 0; i < 8*extra && failedScenarios < 3; i++ {
 		run(b.viaNewWriter(i), out)
+	}
+	for i := 0; i < 6*extra && failedScenarios < 3; i++ {
+		run(b.manyTopics(i), out)
+	}
+	for i := 0; i < 4*extra && failedScenarios < 3; i++ {
+		run(b.oldBrokerBig(i), out)
 	}
 	for i := 0; i < 2+extra/5 && failedScenarios < 3; i++ {
 		run(b.sharedFail(i), out)
